@@ -3916,6 +3916,37 @@ func (c *c10Ctx) keyRoles() {
 							}
 						}
 					}
+					// … or is returned by a helper whose result becomes the Labels of a replica set literal
+					returned := len(fn.Blocks) > 0
+					nret := 0
+					for _, rb := range fn.Blocks {
+						if ret := returnOf(rb); ret != nil {
+							nret++
+							if len(ret.Results) != 1 || unwrap(ret.Results[0]) != ssa.Value(mu.Map) {
+								returned = false
+							}
+						}
+					}
+					if returned && nret > 0 {
+						all := map[*ssa.Function]bool{}
+						for _, f := range r.Prog.RepoFuncs() {
+							all[f] = true
+						}
+						for _, cs := range callSitesOf(fn, all) {
+							cv, isV := cs.(ssa.Value)
+							if !isV {
+								continue
+							}
+							for _, rr := range refs(cv) {
+								if st, isSt := rr.(*ssa.Store); isSt && st.Val == cv {
+									root, p := accessPath(st.Addr)
+									if len(p) > 0 && p[len(p)-1] == "Labels" && isPtrToNamed(root.Type(), pkgAPI, "ExtendedDaemonSetReplicaSet") {
+										edsLabelIsName = true
+									}
+								}
+							}
+						}
+					}
 				}
 			}
 		}
